@@ -194,7 +194,31 @@ def sub_decompose(case):
     return None
 
 
-SUBS = {"indices": sub_indices, "spi": sub_spi, "decompose": sub_decompose}
+def _expand_long(case):
+    """Compact description of a daily axis of more than 32767 steps (positions beyond the int16 range) -> ordinary case."""
+    n = int(case["n"])
+    full = {"gaps": [1] * (n - 1), "axis": "long", "begin": case.get("begin"), "end": case.get("end"), "dtype": case["dtype"], "nodata": -9999,
+            "pixels": [[1 + (t * t * 7 + t * 13 + int(case.get("salt", 0))) % 2999 for t in range(n)]],
+            "ok": [[(t * 31 + 7) % 97 != 0 for t in range(n)]], "dims": case.get("dims", ["time", "y", "x"])}
+    ng = int(case.get("ngroups", 0))
+    if ng:
+        names = ["10", "2", "a"][:ng]
+        full["labels"] = [names[t % ng] if case.get("layout") == "interleaved" else names[min(ng - 1, t * ng // n)] for t in range(n)]
+        full["layout"] = case.get("layout", "blocked")
+        full["relabel"] = [7, 3, 5][:ng]
+    return full
+
+
+def sub_long(case, rec=None):
+    full = _expand_long(case)
+    sub_indices(full)
+    why = sub_spi(full, rec)
+    if "labels" in full and why is None:
+        sub_decompose(full)
+    return why
+
+
+SUBS = {"indices": sub_indices, "spi": sub_spi, "decompose": sub_decompose, "long": sub_long}
 
 LABEL_POOLS = [list(range(40)), [str(i) for i in range(40)], ["g%d" % i for i in range(40)], ["10", "2", "1", "a", "B", "-3", "07", "7"] + ["z%d" % i for i in range(32)]]
 
@@ -277,6 +301,18 @@ def run(ctx):
                                                                   "end:%s" % ("none" if case["end"] is None else "set")])
 
     ctx.given("spi", axis_case(mg), ctx.n(700, 9000), fn=f_spi)
+
+    def f_long(case):
+        why = sub_long(case, rec)
+        if why:
+            rec.discard("long", why.split(":")[0])
+        rec.case("long", case, nontrivial=True, cls=["long:groups=%d" % case.get("ngroups", 0), "dtype:" + case["dtype"]])
+
+    longs = st.integers(32769, 33500).flatmap(lambda n: st.fixed_dictionaries({
+        "n": st.just(n), "begin": st.one_of(st.none(), st.integers(-5, n // 4)), "end": st.one_of(st.none(), st.integers(32768, n + 5)),
+        "dtype": st.sampled_from(["int16", "float32"]), "ngroups": st.sampled_from([0, 0, 2, 3]), "layout": st.sampled_from(["interleaved", "blocked"]),
+        "salt": st.integers(0, 50), "dims": st.permutations(["time", "y", "x"]).map(list)}))
+    ctx.given("long", longs, ctx.n(5, 40), fn=f_long, shrink=False)
 
     def f_dec(case):
         why = sub_decompose(case)
